@@ -137,6 +137,8 @@ class C02(Prop):
         else:
             bl.compare_portfolio(case, impl, mod, self.FIELDS, j)
             holdings_predicate_pf(case, impl, j)
+            for sp in impl.get('sparse_reads', []):
+                j.failures.append('the same operations, state read only every third step: step %s reads %s, read after every step it was %s' % tuple(sp[:3]))
             for pr in impl.get('probe', []):
                 if len(pr) != 6:
                     j.failures.append('a mark of %s without a timestamp was refused: %s' % (pr[0], pr[1:]))
